@@ -101,6 +101,14 @@ func genDial(r *vh.Rand) string {
 	return o
 }
 
+// genTLS: the gun option tls (1/6 of the cases): target and side-car behind TLS
+func genTLS(r *vh.Rand) string {
+	if r.Chance(1, 6) {
+		return " tls=1"
+	}
+	return ""
+}
+
 // the target's answers: gRPC status codes 1..16, UNAVAILABLE / RESOURCE_EXHAUSTED / INTERNAL (what an
 // overloaded or restarting backend says) more often
 var answerCodes = []int{14, 14, 14, 14, 8, 8, 13, 13, 4, 1, 2, 3, 5, 6, 7, 9, 10, 11, 12, 15, 16}
@@ -239,7 +247,7 @@ func genJSON(r *vh.Rand) string {
 	} else {
 		opts += genPlan(r, n, 2, 5)
 	}
-	opts += genDial(r)
+	opts += genDial(r) + genTLS(r)
 	return fmt.Sprintf("json %s %s %d %d %d %d %s%s", modeR, vh.B(r.Chance(1, 2)), r.Range(0, 3), ninst,
 		r.PickInt([]int{0, 0, 2000, 5000, 40000}), n, strings.Join(es, " "), opts)
 }
@@ -389,7 +397,7 @@ func genScen(r *vh.Rand) string {
 		refl = "r"
 	}
 	// at most 4 steps per shot
-	opts := genReflMeta(r) + genPlan(r, 4*nshots, 2, 5) + genDial(r)
+	opts := genReflMeta(r) + genPlan(r, 4*nshots, 2, 5) + genDial(r) + genTLS(r)
 	return fmt.Sprintf("scen %d%s %d %s %s %s %s%s", ninst, refl, r.PickInt([]int{0, 0, 3000, 20000}), strings.Join(order, ","),
 		strings.Join(users, ","), strings.Join(defs, "|"), strings.Join(scens, "|"), opts)
 }
